@@ -14,7 +14,7 @@ FUN2 = ['MIN', 'MAX', 'REM']
 CONST = ['TRUE', 'FALSE', 'E', 'PI', 'INF', 'NAN']
 CONST_VALUES = {}
 VARS = ['x0', 'x1', 'x2', 'x3', 'x4', 'x5']
-NUMS = ['1', '2', '3', '0.5', '2.0', '10', '10.0', '1.0', '0', '7.5', '-1', '-2', '-0.5', '-3.0', '1e2', '2.5e-1', '-1e1', '4', '0.25', '-0.0']
+NUMS = ['1', '2', '3', '0.5', '2.0', '10', '10.0', '1.0', '0', '7.5', '-1', '-2', '-0.5', '-3.0', '1e2', '2.5e-1', '-1e1', '4', '0.25', '-0.0', '1E2', '5E-1', '3.5E1']
 
 # node kinds the generator chooses among (weights favour operators whose parenthesisation matters)
 KINDS = (REL * 2 + LOGIC * 3 + ['NOT'] * 3 + ['PLUS', 'MINUS', 'TIMES', 'DIVIDE'] * 4 + ['UPLUS', 'UMINUS'] * 4 +
